@@ -134,7 +134,14 @@ def host7():
         'my-host', 'my-host.example.com', 'srv-1:5989', 'A-b.C-d',
         'xn--bcher-kva.example', '[fe80::1%25eth0]', '[fe80::1-eth0]',
         '[fe80::1%25eth0]:5989', '[FE80::ABCD-1]', '[fe80::a%25en1]:5988'])
-    return st.one_of(S.host(), S.host(), doc, dashed)
+    # authority with a user info component, as in the WBEM URI examples of
+    # the to_wbem_uri()/from_wbem_uri() docstrings (jdd:test@acme.com:5989)
+    userinfo = st.builds(
+        lambda u, h: u + '@' + h,
+        st.sampled_from(['jdd:test', 'Jdd:Test', 'user', 'U_1:pW', 'a.b']),
+        st.sampled_from(['acme.com:5989', 'Acme.COM', '[fe80::1]:5989',
+                         'my-host', '10.1.2.3:5988']))
+    return st.one_of(S.host(), S.host(), doc, dashed, userinfo)
 
 
 _HOSTS = st.lists(st.one_of(st.none(), host7()), min_size=5, max_size=5)
